@@ -126,7 +126,7 @@ Proof.
     destruct (copy_docs_total sh (sh_docs sh) b None V) as [b1 E1]; auto.
     { simpl. exact I. }
     { intros l Hl. discriminate. }
-    rewrite E1. simpl. eapply (IH b1 (V ++ flat_map (view_doc sh) (sh_docs sh))); auto.
+    rewrite E1. simpl. eapply (IH b1 (V ++ flat_map (viewr_doc sh) (sh_docs sh))); auto.
     eapply copy_docs_view; eauto. simpl. exact I.
 Qed.
 
@@ -387,4 +387,56 @@ Proof.
     destruct (explode_total sh Hw Hm) as [bs Hbs]. rewrite Hbs in H.
     apply andb_prop in H. destruct H as [H _]. apply andb_prop in H. destruct H as [H _].
     destruct failed; [discriminate|reflexivity].
+Qed.
+
+(** ---- necessity for explode: a successful explode implies that the shard was mergeable *)
+Lemma explode_docs_ok_mergeable : forall sh docs cur last done outs,
+  explode_docs sh docs cur last done = Ok outs ->
+  (forall l r, last = Some l -> nth_error (sh_repos sh) l = Some r -> (length (sr_branches r) <= 64)%nat) ->
+  StronglySorted le (live_ids sh docs) /\
+  (forall l, last = Some l -> Forall (le l) (live_ids sh docs)) /\
+  Forall (br64 sh) docs.
+Proof.
+  intros sh docs. induction docs as [|d rest IH]; intros cur last done outs H Hl64.
+  - split; [constructor|]. split; [intros; constructor|constructor].
+  - simpl in H. destruct (nth_error (sh_repos sh) (sd_repo d)) as [r|] eqn:Hr; [|discriminate].
+    rewrite live_ids_cons, (live_id_at _ _ _ Hr).
+    destruct (sr_tomb r) eqn:Et.
+    { destruct (IH _ _ _ _ H Hl64) as [H1 [H2 H3]]. simpl. split; auto. split; auto.
+      constructor; auto. intros r0 Hr0 Ht0. rewrite Hr in Hr0. inversion Hr0; subst. congruence. }
+    assert (Hfin : forall b2 done', explode_docs sh rest (Some b2) (Some (sd_repo d)) done' = Ok outs ->
+              (length (sr_branches r) <= 64)%nat -> (forall l, last = Some l -> (l <= sd_repo d)%nat) ->
+              StronglySorted le ([sd_repo d] ++ live_ids sh rest) /\
+              (forall l, last = Some l -> Forall (le l) ([sd_repo d] ++ live_ids sh rest)) /\
+              Forall (br64 sh) (d :: rest)).
+    { intros b2 done' H1 Hle Hlo. destruct (IH _ _ _ _ H1) as [S1 [S2 S3]].
+      { intros l r0 Hl Hr0. inversion Hl; subst. rewrite Hr in Hr0. inversion Hr0; subst. exact Hle. }
+      specialize (S2 _ eq_refl). simpl. split; [constructor; auto|]. split.
+      - intros l Hl. specialize (Hlo l Hl). constructor; auto.
+        eapply Forall_impl; [|exact S2]. intros a Ha. simpl in Ha. lia.
+      - constructor; auto. intros r0 Hr0 _. rewrite Hr in Hr0. inversion Hr0; subst. exact Hle. }
+    assert (Hfresh : forall done', (do b1 <- set_repo empty_builder r; do dd <- decode sh d; do b2 <- add_doc b1 dd;
+                        explode_docs sh rest (Some b2) (Some (sd_repo d)) done') = Ok outs ->
+              exists b2, explode_docs sh rest (Some b2) (Some (sd_repo d)) done' = Ok outs /\ (length (sr_branches r) <= 64)%nat).
+    { intros done' H1. destruct (set_repo empty_builder r) as [b1| |] eqn:Es; simpl in H1; try discriminate.
+      destruct (decode sh d) as [dd| |]; simpl in H1; try discriminate.
+      destruct (add_doc b1 dd) as [b2| |]; simpl in H1; try discriminate.
+      exists b2. split; auto. eapply set_repo_ok_le; eauto. }
+    cbv zeta in H. destruct last as [l|].
+    + destruct (Nat.eqb l (sd_repo d)) eqn:El.
+      * apply Nat.eqb_eq in El. subst l. destruct cur as [b|]; [|discriminate].
+        destruct (decode sh d) as [dd| |]; simpl in H; try discriminate.
+        destruct (add_doc b dd) as [b2| |]; simpl in H; try discriminate.
+        eapply Hfin; eauto. intros l Hl. inversion Hl; lia.
+      * destruct (sd_repo d <? l)%nat eqn:Elt; [discriminate|]. apply Nat.ltb_ge in Elt.
+        destruct (Hfresh _ H) as [b2 [H1 Hle]]. eapply Hfin; eauto.
+        intros l0 Hl0. inversion Hl0; subst. exact Elt.
+    + destruct (Hfresh _ H) as [b2 [H1 Hle]]. eapply Hfin; eauto. intros l0 Hl0. discriminate.
+Qed.
+
+Lemma explode_ok_mergeable : forall sh outs, explode sh = Ok outs -> mergeable sh.
+Proof.
+  intros sh outs H. unfold explode in H.
+  destruct (explode_docs_ok_mergeable _ _ _ _ _ _ H) as [S1 [_ S3]]; [intros; discriminate|].
+  split; auto.
 Qed.
